@@ -39,6 +39,15 @@ def run(ctx):
     ctx.driver(binary, "TestVerifC50Rounds", {"VERIF_OUT": t1, "VERIF_N": n})
     for r in range(n):
         ctx.count({"detailed_round": r, "seed": ctx.seed})
+    try:
+        with open(t1) as f:
+            for k, line in enumerate(f):
+                if k in (1, 2, 3):
+                    ctx.sample(line.strip()[:400])
+                if k > 3:
+                    break
+    except OSError:
+        pass
     judge(ctx, ctx.validate("LoadStoreTrace", "LoadStoreTrace.cfg", t1, count_resets=False), t1, "detailed rounds seed %d" % ctx.seed)
     ctx.cov["traces_validated_against_impl"] += n
     t2 = os.path.join(ctx.run, "trace-bulk.ndjson")
